@@ -452,7 +452,8 @@ def run_equal_collisions(ctx):
     derived = [
         {"type": "object", "properties": {"shape": {"type": "array", "items": {"anyOf": [o("radius", "number"), o("side", "number")]}}, "shapeElem": o("label", "string")}},
         {"type": "object", "properties": {"list": {"type": "array", "items": o("a", "string", minLength=1)}, "listElem": o("b", "integer", minimum=1), "list_elem": o("c", "boolean")}},
-        {"type": "object", "properties": {"m": {"type": "object", "additionalProperties": o("c", "string")}, "mValue": o("d", "integer")}},
+        # (an inline object as a map value is an anonymous struct - finding C04-anonymous-struct-map-value - so the named map value here is an enum)
+        {"type": "object", "properties": {"m": {"type": "object", "additionalProperties": {"type": "string", "enum": ["a", "b"]}}, "mValue": o("d", "integer")}},
         {"type": "object", "properties": {"u": {"anyOf": [o("p", "string"), o("q", "integer")]}, "w": {"type": "array", "items": {"anyOf": [o("p", "string"), o("q", "integer")]}},
                                           "wElem": o("z", "string"), "u2": o("y", "number")}},
         {"type": "object", "properties": {"grid": {"type": "array", "items": {"type": "array", "items": o("cell", "integer")}}, "gridElem": o("x", "string"), "gridElemElem": o("y", "string")}},
